@@ -3,6 +3,7 @@ package govc
 // Symbolic execution of go/ssa function bodies into verification conditions.
 
 import (
+	"strconv"
 	"fmt"
 	"os"
 	"go/constant"
@@ -63,6 +64,7 @@ type Obligation struct {
 type VC struct {
 	Approx   bool // quantifier-free candidate query (replay only)
 	NoSafety bool
+	BareLoops int // loops cut without invariant (incl. inlined callees)
 	COI      bool // standalone queries keep only hypotheses in the goal's cone of influence
 	Eng     *Engine
 	Fn      *ssa.Function
@@ -718,6 +720,20 @@ func (x *Exec) newFrame(fn *ssa.Function, parent *Frame, params, free []*Val, c 
 		bail("function %s has no body", fn)
 	}
 	fr.g = buildVGraph(fn, c)
+	// loops cut without an invariant of their own (in this function or in an inlined callee): a proof
+	// that goes through one knows nothing about what the loop did
+	for _, li := range fr.g.loops {
+		if li.spec == nil {
+			x.vc.BareLoops++
+		}
+	}
+	if c != nil {
+		for k := range c.Loops {
+			if n, err := strconv.Atoi(k); err == nil && n >= len(fr.g.loops) {
+				stale("contract has clauses for loop %d but %s has %d loop(s)", n, fn, len(fr.g.loops))
+			}
+		}
+	}
 	fr.buildNames()
 	return fr
 }
